@@ -837,7 +837,10 @@ class CommitHandler(processor.CommitHandler):
         ie = inv.get_entry(file_id)
         rev_id = ie.revision
         new_file_id = inv.path2id(new_path)
-        if new_file_id is not None:
+        if (
+            new_file_id is not None
+            and new_path not in self._paths_deleted_this_commit
+        ):
             self.record_delete(new_path, inv.get_entry(new_file_id))
         self.record_rename(old_path, new_path, file_id, ie)
 
@@ -1090,6 +1093,7 @@ class CommitHandler(processor.CommitHandler):
             ie: The inventory entry to add.
         """
         self._add_entry((None, path, ie.file_id, ie))
+        self._paths_deleted_this_commit.discard(path)
 
     def record_changed(self, path: str, ie: inventory.InventoryEntry) -> None:
         """Record a modification to an existing inventory entry.
@@ -1120,6 +1124,10 @@ class CommitHandler(processor.CommitHandler):
                     from_dir=ie.file_id
                 ):
                     child_path = osutils.pathjoin(path, child_relpath)
+                    moved = self._delta_entries_by_fileid.get(entry.file_id)
+                    if moved is not None and moved[1] not in (None, child_path):
+                        # renamed away earlier in this commit
+                        continue
                     self._add_entry((child_path, None, entry.file_id, None))
                     self._paths_deleted_this_commit.add(child_path)
                     if entry.kind == "directory":
@@ -1141,6 +1149,9 @@ class CommitHandler(processor.CommitHandler):
         self._add_entry((old_path, new_path, file_id, new_ie))
         self._modified_file_ids[new_path] = file_id
         self._paths_deleted_this_commit.discard(new_path)
+        # Nothing lives at the old path any more: whatever a later command
+        # of this commit puts there is a new entry, not this one again.
+        self._paths_deleted_this_commit.add(old_path)
         if new_ie.kind == "directory":
             self.directory_entries[new_path] = new_ie
 
@@ -1166,11 +1177,14 @@ class CommitHandler(processor.CommitHandler):
         self.record_delete(old_path, old_ie)
 
         # Update the dictionaries used for tracking new file-ids
+        # (An entry of the basis inventory stays one: a later modification of
+        # the new path is a change to it, not a duplicate addition.)
         if old_path in self._new_file_ids:
             del self._new_file_ids[old_path]
+            self._new_file_ids[new_path] = file_id
         else:
             del self._modified_file_ids[old_path]
-        self._new_file_ids[new_path] = file_id
+            self._modified_file_ids[new_path] = file_id
 
         # Create the new InventoryEntry, copying the kind-specific fields
         # from the old one.
